@@ -863,12 +863,32 @@ def check():
         import props.c09 as c09
         Lg = mirlib.Lemma(o)
         c09.graph_lemmas(o, Lg, Lg.smt, M, E, app_structural, lambda name, model: app_bad.append(name))
+        # ... and the tables above stand for "unification = equality of kinds": one unification step accepts two
+        # constant tags only if they are equal (lemmas shared with C07)
+        import props.c07 as c07
+        ubad = []
+        c07.unify_step_lemmas(o, Lg, Lg.smt, M, E, ubad)
+        for b_ in ubad:
+            if b_[1] not in app_bad:
+                app_bad.append(b_[1])
     except KeyError as exn:
         o.inconc(str(exn)[:160])
         app_bad = []
     emitter_lemmas(o, M, MO, app_bad)
     o.samples = [{"site": q["name"], "verdict": q["verdict"], "models": q.get("models")} for q in o.queries[:30]]
     return o.finish()
+
+
+MUST_NOT_CRASH = {
+    "recursive-relation-used-as-a-uri": "let a = (concat /x a) on get -> <{}>;\nres a;\n",
+    "inline-rec-relation-used-as-a-uri": "res rec x ((concat /x x) on get -> <{ 'self x }>);\n",
+    "recursive-relation-through-a-uri-function": "let f u = concat u /tail;\nlet a = (f a) on get -> <{}>;\nres a;\n",
+    "recursive-content-used-as-a-schema": "let c = <{ 'again c }>;\nres / on get -> c;\n",
+    "recursive-uri": "let u = concat /a u;\nres u on get -> <{}>;\n",
+    "relation-where-a-schema-property-is-expected": "let r = /x on get -> <{}>;\nlet s = { 'r r, 'again? s };\nres / on get -> <s>;\n",
+    "recursive-transfer-through-ranges": "let t = get -> <{}> :: t;\nres / on t;\n",
+    "recursive-array-of-relations": "let r = /x on get -> <[r]>;\nres r;\n",
+}
 
 
 EMITTER_PROGRAMS = {
@@ -964,6 +984,16 @@ def emitter_lemmas(o, M, MO, extra_bad=()):
         if crashed(r):
             loc = panic_location(r["out"])
             crashes.append("%s: exit %s%s" % (name, r["rc"], (" (panicked at %s:%s)" % loc) if loc else ""))
+    # programs the pinned checker rejects - and must keep rejecting or handle: a relation or a content where a URI / schema
+    # is demanded, inside a recursion. Whatever the verdict, dying after acceptance is the violation
+    nrej = 0
+    for name, src in MUST_NOT_CRASH.items():
+        r = run_cli(cli, {"main.oal": src}, workdir=os.path.join(rdir, "edge-" + name), timeout=30)
+        nrej += 1
+        if crashed(r):
+            loc = panic_location(r["out"])
+            crashes.append("%s: exit %s%s" % (name, r["rc"], (" (panicked at %s:%s)" % loc) if loc else ""))
+    o.extra["edge_programs_run"] = nrej
     with open(os.path.join(rdir, "cmd"), "w") as f:
         f.write("#!/bin/sh\n# each sub-directory holds one program; re-run: oal-cli -m main.oal -t out.yaml\ncd /verif && for d in %s/*/; do ./check C01 --replay $d; done\n" % rdir)
     o.extra["emitter_programs"] = detail
